@@ -334,7 +334,14 @@ func replayFile(r *evid.Run, path string) int {
 	if json.Unmarshal(b, &sp) == nil && len(sp.Replay.Session) > 0 {
 		// a session of Session.tla: run it again in a fresh process
 		self, _ := os.Executable()
-		s := &sessionRunner{r: r, self: self, args: []string{"worker"}, alone: map[string]*sessObs{}, build: sp.Replay.Build}
+		args := []string{"worker"}
+		if sp.Replay.Build == "/tinywasm" {
+			if self = buildWasmDriver(r); self == "" {
+				return 2
+			}
+			args = nil
+		}
+		s := &sessionRunner{r: r, self: self, args: args, alone: map[string]*sessObs{}, build: sp.Replay.Build}
 		s.runSession(sp.Replay.Session)
 		if r.Violations() > 0 {
 			return 1
